@@ -86,6 +86,7 @@ class MemoryIOStream(BaseIOStream):
         self.in_eof = False  # FIN after the queued segments
         self.in_error = None  # OSError raised by read_from_fd after the queued segments
         self.error_event = None  # exception reported by get_fd_error with an ERROR event
+        self.error_pending = False  # set by post_error(): ERROR is delivered with the next dispatch
         # outbound side
         self.write_credit = None  # None = unlimited; else number of bytes write_to_fd may still accept
         self.max_write_chunk = None  # cap per write_to_fd call (partial sends)
@@ -181,6 +182,10 @@ class MemoryIOStream(BaseIOStream):
             ev |= READ
         if self.events & WRITE and self.writable():
             ev |= WRITE
+        if self.error_pending:
+            # an error condition on the fd is reported with whatever the stream polls for
+            self.error_pending = False
+            ev |= ERROR
         if ev:
             self.step += 1
             self.handler(self._fd, ev)
@@ -195,6 +200,12 @@ class MemoryIOStream(BaseIOStream):
             self.handler(self._fd, ERROR)
             return True
         return False
+
+    def post_error(self, exc=None):
+        """Like fire_error, but the ERROR event is delivered by the next pump_once() (level-triggered:
+        it waits until the stream has a handler registered)."""
+        self.error_event = exc
+        self.error_pending = True
 
     def take_wire(self):
         b = bytes(self.wire)
